@@ -94,6 +94,11 @@ func (e *EncryptedKey) Decrypt(priv *PrivateKey, config *Config) error {
 		return err
 	}
 
+	// b holds the cipher octet, the key and a two-octet checksum.
+	if len(b) < 3 {
+		return errors.StructuralError("EncryptedKey too short")
+	}
+
 	e.CipherFunc = CipherFunction(b[0])
 	e.Key = b[1 : len(b)-2]
 	expectedChecksum := uint16(b[len(b)-2])<<8 | uint16(b[len(b)-1])
